@@ -185,6 +185,20 @@ def run_history(ops, props=('C01', 'C02', 'C05', 'C06')):
                     out.append(('C01', f'removal of registered {sid} rejected'))
                 if monitor.fingerprint((sm.systems, sm.execution_queue)) != before:
                     out.append(('C01', f'rejected removal of {sid} changed the scheduler'))
+        elif kind == 'addforeign':
+            # a system object built for another, still running model is registered here: whether it runs is decided by
+            # THIS model's state (add_system does not check ownership)
+            _, sid, prio = op
+            if not hasattr(w, 'other'):
+                from ECAgent.Core import Model as _Model
+                w.other = _Model(seed=2)
+            if any(r.id == sid for r in w.reg):
+                continue
+            s = w.Scripted(sid, w.other, prio, world=w)
+            s.model_for_log = m
+            sm.add_system(s)
+            w.reg.append(Rec(s, sid, prio, 1, 0, BIG, w.stamp, []))
+            w.stamp += 1
         elif kind == 'readd':
             # the same system object is removed and registered again: it counts as newly registered
             sid = op[1]
@@ -338,6 +352,9 @@ def small_histories():
     for ps in ((big, big - 1, 0), (-big, -big + 1, 0), (2 ** 53, 2 ** 53 + 1, 2 ** 53 + 2)):
         for perm in itertools.permutations(range(3)):
             yield [('add', f's{k}', ps[k], 1, 0, None, []) for k in perm] + [('step', 2)]
+    for pos in range(3):
+        ops = [('add', f's{k}', 2 - k, 1, 0, None, [('complete', 1)] if k == pos else []) for k in range(3)]
+        yield ops[:pos + 1] + [('addforeign', 'guest', 2 - pos, )] + ops[pos + 1:] + [('step', 3), ('step_err',)]
     for ck in ('agent', 'file', 'plain'):
         # a collector that is cleaned up (by itself or from outside) leaves the scheduler like any other system
         yield [('add', 'x', 0, 1, 0, None, []), ('addcoll', ck, 'col', None, 1, 0, None), ('step', 2), ('cleanup', 'col'),
